@@ -57,6 +57,7 @@ import (
 	"encoding/json"
 	"fmt"
 	"math/big"
+	"sort"
 	"testing"
 	"time"
 
@@ -559,8 +560,10 @@ func (c *c09Client) Get(_ context.Context, key ctrlclient.ObjectKey, obj ctrlcli
 
 type c09Out struct {
 	reset bool
-	node  [2]*big.Rat   // published node amount in milli-CPU / bytes
-	zone  [][2]*big.Rat // per zone index; nil when no zone amounts were published
+	node  [2]*big.Rat              // published node amount in milli-CPU / bytes
+	zone  [][2]*big.Rat            // per zone index; nil when no zone amounts were published
+	items []framework.ResourceItem // what Calculate returned (handed on to Prepare by the prepare unit)
+	objs  c09Objects
 }
 
 var c09Now = time.Date(2026, 1, 1, 0, 0, 0, 0, time.UTC)
@@ -584,7 +587,7 @@ func c09Run(c *kit.Case, in *c09Input, tag string) *c09Out {
 	if err != nil {
 		c.Fail("C09/output/error", "%s: Calculate returned an error on a complete input: %v", tag, err)
 	}
-	out := &c09Out{}
+	out := &c09Out{items: items, objs: o}
 	var byName [2]*framework.ResourceItem
 	for i := range items {
 		switch items[i].Name {
@@ -1455,5 +1458,267 @@ func TestVerifC09Minimal(t *testing.T) {
 			}
 			c.Sample(map[string]any{"input": m.name, "published_cpu_milli": out.node[0].RatString(), "published_memory_bytes": out.node[1].RatString()})
 			c09CheckBounds(c, in, out, m.name)
+		})
+}
+
+// ---------------------------------------------------------------------------------------------
+// Prepare: what is finally PUBLISHED is what Plugin.Prepare writes into node.status (capacity and
+// allocatable of kubernetes.io/batch-cpu / batch-memory) from the framework.NodeResource that holds
+// the calculated items. The controller prepares the same NodeResource several times per reconcile
+// (once on a copy of the cached node for the sync check, again on the node it actually writes, again
+// on every conflict retry, and once more for the metadata patch), so the unit does the same.
+//
+// CPU normalization (docs/proposals/scheduling/20230831-cpu-normalization.md, plugins/cpunormalization):
+// the ratio reaches Prepare as NodeResource.Annotations[node.koordinator.sh/cpu-normalization-ratio],
+// written by the cpunormalization plugin as strconv.FormatFloat(ratio, 'f', 2, 64) with 1.00 <= ratio
+// <= 5.00 ("The float value must >= 1", defaultMinRatio/defaultMaxRatio). Rule: batch-cpu is amplified
+// by the ratio, batch-memory is not. An extended resource must be an integer, so calculated x ratio
+// (at most two decimals) is rounded to a neighbouring integer; the oracle grants the upper neighbour:
+// written <= ceil(calculated x ratio), i.e. written/ratio exceeds the already bound-checked calculated
+// amount by less than 1/ratio of a milli-CPU. Only the upper direction is a verdict (an implementation
+// that publishes less never over-promises); "below the expected amount" is counted as converse_misses_*.
+// The third-party allocation annotation (batch priority) is subtracted by Prepare from allocatable and
+// capacity; that only lowers the amount, so the upper oracle stays valid with it.
+
+func c09NRSnapshot(nr *framework.NodeResource) string {
+	b, err := json.Marshal(nr)
+	if err != nil {
+		return "marshal error: " + err.Error()
+	}
+	var names []string
+	for n, q := range nr.Resources { // the JSON form normalises quantities; keep the literal state too
+		if q == nil {
+			names = append(names, string(n)+"=nil")
+		} else {
+			names = append(names, fmt.Sprintf("%s=%d/%s", n, q.MilliValue(), q.Format))
+		}
+	}
+	sort.Strings(names)
+	return string(b) + fmt.Sprint(names)
+}
+
+func TestVerifC09Prepare(t *testing.T) {
+	c09Setup(t)
+	kit.Run(t, kit.Config{Property: "C09", Unit: "prepare", Quick: 6000, Thorough: 30000,
+		Rule: "same input generator (12% stale/missing metric); after the real Calculate the items are put into a framework.NodeResource as the controller does, with the cpu-normalization ratio annotation absent / 1.00 / 1.01 / 1.20 / 1.50 / 2.00 / 3.00 / 5.00 / random two-decimal value in [1,5]; the real Plugin.Prepare is then run 1-4 times on the SAME NodeResource against fresh copies of the node (60% carrying batch amounts of an earlier reconcile, 20% a third-party batch allocation), NeedSync after each; oracle: written capacity/allocatable/origin annotation <= ceil(calculated x ratio) for batch-cpu and <= calculated for batch-memory, k-th call writes what the first wrote, memory identical with and without ratio, reset items remove the resources from the node; mutation of the NodeResource is counted; distinct = (ratio, calls, old amounts?, third party?, reset?, zero amount?); non-trivial = ratio > 1, at least two calls and a positive batch-cpu amount"},
+		func(c *kit.Case) {
+			r := c.R
+			in := c09GenInput(r)
+			if r.Pct(12) {
+				if r.Bool() {
+					in.AgeNanos = 2 * in.DegradeMin * int64(time.Minute)
+				} else {
+					in.MetricKind = 2
+				}
+			}
+			ratioPct := int64(-1)
+			switch r.Weighted(20, 10, 50, 20) {
+			case 1:
+				ratioPct = 100
+			case 2:
+				ratioPct = kit.Pick(r, []int64{101, 120, 150, 200, 300, 500})
+			case 3:
+				ratioPct = int64(r.Range(100, 500))
+			}
+			calls := r.Range(1, 4)
+			var old, third c09Res
+			hasOld, hasThird := r.Pct(60), r.Pct(20)
+			if hasOld {
+				old = c09Res{c09Amt(r, in.Cap[0], 0, 3000), c09Amt(r, in.Cap[1], 0, 1000)}
+			}
+			if hasThird {
+				third = c09Res{c09Amt(r, in.Cap[0], 0, 600), c09Amt(r, in.Cap[1], 0, 600)}
+			}
+			c.Op("input ratioPct=%d calls=%d old=%v(%v) thirdParty=%v(%v) %+v", ratioPct, calls, old, hasOld, third, hasThird, *in)
+			out := c09Run(c, in, "calculate")
+			c09CheckBounds(c, in, out, "calculate")
+			stale, _ := in.stale()
+			if stale && !out.reset {
+				c.Fail("C09/degrade/stale-metric-not-reset", "stale or missing node metric but numbers are calculated")
+			}
+
+			// the node as the controller holds it
+			node := out.objs.node.DeepCopy()
+			batchNames := [2]corev1.ResourceName{extension.BatchCPU, extension.BatchMemory}
+			if hasOld {
+				for res := 0; res < 2; res++ {
+					q := *resource.NewQuantity(old[res], resource.DecimalSI)
+					node.Status.Capacity[batchNames[res]] = q
+					node.Status.Allocatable[batchNames[res]] = q
+				}
+			}
+			if hasThird {
+				if err := slov1alpha1.SetThirdPartyAllocation(node.Annotations, "c09-third-party", extension.PriorityBatch, corev1.ResourceList{
+					extension.BatchCPU:    *resource.NewQuantity(third[0], resource.DecimalSI),
+					extension.BatchMemory: *resource.NewQuantity(third[1], resource.BinarySI)}); err != nil {
+					c.Harness("SetThirdPartyAllocation: %v", err)
+				}
+			}
+			// the NodeResource as calculateNodeResource builds it (plus the cpunormalization plugin's annotation)
+			nr := framework.NewNodeResource(out.items...)
+			plain := framework.NewNodeResource() // same amounts, private quantities, no ratio
+			for _, it := range out.items {
+				cp := it
+				if it.Quantity != nil {
+					q := it.Quantity.DeepCopy()
+					cp.Quantity = &q
+				}
+				plain.Set(cp)
+			}
+			if ratioPct >= 0 {
+				nr.Annotations[extension.AnnotationCPUNormalizationRatio] = c09Ratio(ratioPct)
+			}
+			before := c09NRSnapshot(nr)
+			// expected upper amounts
+			var upper [2]*big.Rat
+			if !out.reset {
+				upper[0] = new(big.Rat).Set(out.node[0])
+				if ratioPct > 100 {
+					x := new(big.Rat).Mul(out.node[0], big.NewRat(ratioPct, 100))
+					up := new(big.Int).Quo(x.Num(), x.Denom())
+					if !x.IsInt() {
+						up.Add(up, big.NewInt(1))
+					}
+					upper[0] = new(big.Rat).SetInt(up)
+				}
+				m := out.node[1]
+				up := new(big.Int).Quo(m.Num(), m.Denom())
+				if !m.IsInt() {
+					up.Add(up, big.NewInt(1))
+				}
+				upper[1] = new(big.Rat).SetInt(up)
+			}
+			type written struct {
+				present [2][3]bool
+				v       [2][3]*big.Rat // per resource: capacity, allocatable, origin annotation
+			}
+			fields := [3]string{"capacity", "allocatable", "origin-annotation"}
+			read := func(n *corev1.Node) written {
+				var w written
+				origin, err := slov1alpha1.GetOriginExtendedAllocatable(n.Annotations)
+				if err != nil {
+					c.Fail("C09/prepare/origin-annotation-unreadable", "origin allocatable annotation cannot be parsed: %v", err)
+				}
+				for res := 0; res < 2; res++ {
+					lists := [3]corev1.ResourceList{n.Status.Capacity, n.Status.Allocatable, nil}
+					if origin != nil {
+						lists[2] = origin.Resources
+					}
+					for f := 0; f < 3; f++ {
+						if q, ok := lists[f][batchNames[res]]; ok {
+							w.present[res][f] = true
+							w.v[res][f] = big.NewRat(q.MilliValue(), 1000)
+						}
+					}
+				}
+				return w
+			}
+			p := &Plugin{}
+			var first written
+			mutated := false
+			for j := 1; j <= calls; j++ {
+				nodeCopy := node.DeepCopy()
+				if err := p.Prepare(out.objs.strategy, nodeCopy, nr); err != nil {
+					c.Fail("C09/prepare/error", "Prepare call %d returned an error: %v", j, err)
+				}
+				c.Count("prepare_calls", 1)
+				if j > 1 {
+					c.Count("prepare_repeated", 1)
+				}
+				w := read(nodeCopy)
+				desc := ""
+				for res := 0; res < 2; res++ {
+					for f := 0; f < 2; f++ {
+						if w.present[res][f] {
+							desc += fmt.Sprintf(" %s.%s=%s", c09ResName[res], fields[f], w.v[res][f].RatString())
+						} else {
+							desc += fmt.Sprintf(" %s.%s=absent", c09ResName[res], fields[f])
+						}
+					}
+				}
+				need, _ := p.NeedSync(out.objs.strategy, node, nodeCopy)
+				c.Op("prepare call %d ->%s needSync=%v", j, desc, need)
+				if need {
+					c.Count("needsync_true", 1)
+				} else {
+					c.Count("needsync_false", 1)
+				}
+				for res := 0; res < 2; res++ {
+					for f := 0; f < 3; f++ {
+						what := fmt.Sprintf("Prepare call %d of %d (ratio %s): node %s of batch-%s", j, calls, map[bool]string{true: c09Ratio(ratioPct), false: "absent"}[ratioPct >= 0], fields[f], c09ResName[res])
+						if out.reset {
+							// stale/missing metric: the resource must be withdrawn from node.status, whatever was there before
+							if f < 2 && w.present[res][f] {
+								c.Fail("C09/prepare/reset-not-withdrawn", "%s is still %s although the calculated item is a reset (amount of an earlier reconcile: %v)", what, w.v[res][f].RatString(), hasOld)
+							}
+							if f < 2 {
+								c.Count("prepare_reset_withdrawn", 1)
+							}
+							continue
+						}
+						if !w.present[res][f] {
+							c.Count("converse_misses_prepare_amount_absent", 1)
+							continue
+						}
+						v := w.v[res][f]
+						if v.Sign() < 0 {
+							c.Fail("C09/prepare/negative", "%s = %s is negative", what, v.RatString())
+						}
+						if !v.IsInt() {
+							c.Count("prepare_written_not_integral", 1)
+						}
+						if v.Cmp(upper[res]) > 0 {
+							if res == c09CPU {
+								c.Fail("C09/prepare/amplified-above-ratio", "%s = %s exceeds the calculated amount %s x ratio rounded up = %s", what, v.RatString(), out.node[0].RatString(), upper[0].RatString())
+							}
+							c.Fail("C09/prepare/memory-above-calculated", "%s = %s exceeds the calculated amount %s (memory is not amplified)", what, v.RatString(), out.node[1].RatString())
+						}
+						if j > 1 && (!first.present[res][f] || v.Cmp(first.v[res][f]) != 0) {
+							c.Fail("C09/prepare/repeated-call-changes-amount", "%s = %s, the first call on the same NodeResource wrote %v", what, v.RatString(), first.v[res][f])
+						}
+						if !hasThird || f == 2 {
+							if v.Cmp(upper[res]) == 0 || (res == c09CPU && new(big.Rat).Sub(upper[res], v).Cmp(c09Int(1)) <= 0) {
+								c.Count("prepare_written_equals_expected", 1)
+							} else {
+								c.Count("converse_misses_prepare_below_expected", 1)
+							}
+						}
+					}
+				}
+				if j == 1 {
+					first = w
+				}
+				if !mutated && c09NRSnapshot(nr) != before {
+					mutated = true
+					c.Count("prepare_mutated_noderesource", 1) // counted: the statement does not speak about the argument
+				}
+			}
+			// memory must not depend on the ratio
+			if !out.reset {
+				nodeCopy := node.DeepCopy()
+				if err := p.Prepare(out.objs.strategy, nodeCopy, plain); err != nil {
+					c.Fail("C09/prepare/error", "Prepare without ratio returned an error: %v", err)
+				}
+				c.Count("prepare_calls", 1)
+				w := read(nodeCopy)
+				for f := 0; f < 3; f++ {
+					if w.present[1][f] != first.present[1][f] || (w.present[1][f] && w.v[1][f].Cmp(first.v[1][f]) != 0) {
+						c.Fail("C09/prepare/ratio-changes-memory", "node %s of batch-memory is %v with ratio %d%% and %v without", fields[f], first.v[1][f], ratioPct, w.v[1][f])
+					}
+				}
+				c.Count("prepare_memory_same_without_ratio", 1)
+			}
+			if ratioPct > 100 {
+				c.Count("ratio_gt1_cases", 1)
+			}
+			zero := !out.reset && out.node[0].Sign() == 0
+			c.Seen(ratioPct, calls, hasOld, hasThird, out.reset, zero)
+			if ratioPct > 100 && calls >= 2 && !out.reset && out.node[0].Sign() > 0 {
+				c.NonTrivial()
+			}
+			if c.K < 2 && !out.reset {
+				c.Sample(map[string]any{"calculated_batch_cpu": out.node[0].RatString(), "ratio_percent": ratioPct, "prepare_calls": calls,
+					"written_allocatable_cpu": fmt.Sprint(first.v[0][1]), "written_allocatable_memory": fmt.Sprint(first.v[1][1])})
+			}
 		})
 }
